@@ -2,6 +2,7 @@
 from __future__ import annotations
 
 import itertools
+import os
 
 import numpy as np
 import torch
@@ -204,6 +205,98 @@ def run_stream(case, ctx):
         ctx.nontrivial({"n": n, "g": case["gamma"], "cap": cap, "d": dones})
 
 
+def run_loop_alignment(case, ctx):
+    """The statement's last clause inside the real train_off_policy: whenever Rainbow's learn() is handed a 1-step batch together
+    with an n-step batch (sampled by the same indices), the k-th rows of the two describe the same (observation, action) - also after
+    both buffers have wrapped around, which is where the two cursors can drift apart."""
+    import contextlib
+    import io
+    import shutil
+    import tempfile
+
+    from agilerl.components.replay_buffer import MultiStepReplayBuffer, PrioritizedReplayBuffer, ReplayBuffer
+    from agilerl.training.train_off_policy import train_off_policy
+    from vp.gen import agents as ag
+    from vp.gen import loopenvs as le
+
+    E, cap, per = case["envs"], case["cap"], case["per"]
+    spec = {"algo": "Rainbow", "obs": "vector", "obsv": 0, "actv": 0, "seed": case["seed"],
+            "hp": {"batch_size": case["batch_size"], "learn_step": case["learn_step"]}}
+    try:
+        ag.seed_all(case["seed"])
+        agent = ag.build(spec)
+        obs_space, act_space = ag.spaces_for(spec)
+    except Exception as e:  # noqa: BLE001
+        ctx.label(f"setup-failed:{type(e).__name__}")
+        return
+    env = (le.CountingVecEnv(E, obs_space, act_space, [case["ep_len"], case["ep_len"] + 1], seed=case["seed"]) if E
+           else le.CountingSingleEnv(obs_space, act_space, case["ep_len"], seed=case["seed"]))
+    rows = max(E, 1)
+    memory = PrioritizedReplayBuffer(cap, alpha=0.6) if per else ReplayBuffer(cap)
+    nmem = MultiStepReplayBuffer(cap, n_step=agent.n_step, gamma=agent.gamma)
+    calls = []
+    cls = type(agent)
+    orig = cls.learn
+
+    def learn(self, experiences, n_experiences=None, per=False):
+        if n_experiences is not None:
+            calls.append((experiences["obs"].clone(), experiences["action"].clone(), n_experiences["obs"].clone(),
+                          n_experiences["action"].clone(), experiences["idxs"].reshape(-1).tolist(), len(memory), len(nmem)))
+        return orig(self, experiences, n_experiences=n_experiences, per=per)
+
+    work = tempfile.mkdtemp(prefix="vpc10_")
+    cwd = os.getcwd()
+    os.chdir(work)
+    cls.learn = learn
+    sink = io.StringIO()
+    try:
+        with contextlib.redirect_stdout(sink), contextlib.redirect_stderr(sink):
+            try:
+                train_off_policy(env, "env", "Rainbow", [agent], memory, max_steps=case["max_steps"], evo_steps=case["max_steps"],
+                                 eval_steps=2, eval_loop=1, per=per, n_step=True, n_step_memory=nmem, tournament=None, mutation=None,
+                                 wb=False, verbose=False, checkpoint=None)
+            except Exception as e:  # noqa: BLE001 - "runs to completion" is C20's clause
+                ctx.label(f"loop-raised:{type(e).__name__}")
+    finally:
+        cls.learn = orig
+        os.chdir(cwd)
+        shutil.rmtree(work, ignore_errors=True)
+    if not calls:
+        ctx.label("loop:no-learn-call-with-n-step-batch")
+        return
+    wrapped = False
+    for i, (o1, a1, on, an, idxs, l1, ln) in enumerate(calls):
+        wrapped |= l1 >= cap
+        B = o1.shape[0]
+        # (with prioritised sampling the indices are (B, 1) and the n-step batch comes back as (B, 1, ...): rows are compared flattened)
+        f1, fn = o1.reshape(B, -1), on.reshape(on.shape[0], -1)
+        same = f1.shape == fn.shape and torch.equal(f1, fn) and torch.equal(a1.reshape(-1).double(), an.reshape(-1).double())
+        if not same:
+            bad = [j for j in range(B) if f1.shape != fn.shape or not torch.equal(f1[j], fn[j])][:4]
+            ctx.fail("C10/loop/learn_batches_not_row_aligned" + ("/after_wrap_around" if l1 >= cap else ""),
+                     "train_off_policy handed learn() a 1-step batch and an n-step batch whose k-th rows describe different "
+                     "(observation, action) pairs", learn_call=i, rows=bad, idxs=idxs[:8], len_one_step=l1, len_n_step=ln, capacity=cap,
+                     num_envs=rows)
+        ctx.check(l1 == ln, "C10/loop/buffer_lengths_differ_at_learn_time",
+                  "the 1-step and the n-step buffer hold different numbers of rows when a batch is sampled from both by the same indices",
+                  len_one_step=l1, len_n_step=ln, learn_call=i)
+    ctx.label("loop:wrapped" if wrapped else "loop:no-wrap")
+    ctx.label(f"loop:envs={'single' if E == 0 else E}")
+    ctx.label("loop:per" if per else "loop:uniform")
+    if wrapped:
+        ctx.nontrivial({"loop": 1, "E": E, "cap": cap, "per": per, "bs": case["batch_size"], "ls": case["learn_step"], "ms": case["max_steps"]})
+
+
+@st.composite
+def loop_strategy(draw, tier):
+    E = draw(st.sampled_from([0, 1, 2, 3]))
+    rows = max(E, 1)
+    cap = rows * draw(st.integers(2, 6)) + draw(st.integers(0, 2))
+    return {"envs": E, "cap": cap, "per": draw(st.booleans()), "batch_size": draw(st.integers(2, 4)),
+            "learn_step": draw(st.sampled_from([1, 1, 2, 3])), "ep_len": draw(st.integers(2, 7)),
+            "max_steps": cap * draw(st.integers(2, 4)) + draw(st.integers(0, 5)), "seed": draw(st.integers(0, 999))}
+
+
 def enum_streams(tier):
     L = 8 if tier == "quick" else 10
     for n in (1, 2, 3, 4):
@@ -245,6 +338,9 @@ PROPERTY = Property(
         Obligation("nstep_exhaustive", run_stream, enumerate=enum_streams,
                    shards={"quick": 8, "thorough": 16},
                    exhaustive_note="all done-flag placements for one env, stream length n..L, n in 1..4 (L=8 quick, 10 thorough); thorough also all two-env patterns up to length 6"),
+        Obligation("train_off_policy_alignment", run_loop_alignment, strategy=loop_strategy,
+                   examples={"quick": 12, "thorough": 120}, shards={"quick": 4, "thorough": 16},
+                   shrink_budget={"quick": 20, "thorough": 100}),
         Obligation("nstep_random", run_stream, strategy=stream_strategy,
                    examples={"quick": 400, "thorough": 6000}, shards={"quick": 8, "thorough": 16}),
     ],
